@@ -36,6 +36,7 @@ type Ctx struct {
 	fieldTab map[string]*fieldStores
 	fieldEsc map[string]bool
 	sumFA    map[*ssa.Function]*FA
+	crDepth  int
 }
 
 // CannotDecide is the error class for "the checker itself could not run" (exit 2).
